@@ -23,7 +23,25 @@ use zcash_transparent::address::TransparentAddress;
 use zcash_transparent::bundle::{OutPoint, TxOut};
 use zcash_transparent::keys::{AccountPrivKey, IncomingViewingKey};
 
-pub const SHAPES: &[&str] = &["t2o_v5", "s2o_v5", "o2i_v6", "multi_v6", "memo_v5", "memo_v6"];
+pub const SHAPES: &[&str] = &["t2o_v5", "s2o_v5", "o2i_v6", "multi_v6", "memo_v5", "memo_v6", "t2t_v5", "cltvt_v5", "cltvh_v6"];
+
+/// Shapes whose transparent inputs carry a required lock time (the spend of a CLTV coin): the
+/// transaction's nLockTime, an effect, is then *determined from input fields* (BIP 370), so a role
+/// that rewrites the transparent bundle must carry them through. `(input, height, time)`.
+pub fn required_lock_times(name: &str) -> Vec<(usize, Option<u32>, Option<u32>)> {
+    match name {
+        // two inputs: the lock time is the maximum of the required heights
+        "t2t_v5" => vec![(0, Some(1_700_000), None), (1, Some(1_600_000), None)],
+        "cltvt_v5" => vec![(0, None, Some(1_800_000_000))],
+        "cltvh_v6" => vec![(0, Some(1_700_000), None)],
+        _ => vec![],
+    }
+}
+
+/// Shapes that get the reduced treatment in the quick tier (they exist for one field family).
+pub fn is_aux_shape(name: &str) -> bool {
+    is_memo_shape(name) || name.starts_with("cltv")
+}
 
 /// The memo-length lattice of the stripped memo-plaintext representation (one symbol on each side
 /// of `len > MEMO_SIZE`, of "trailing zero bytes are stripped", and of the empty memo): all zero
@@ -214,6 +232,21 @@ pub fn build_shape(name: &str) -> Result<Shape, String> {
             1_000_000,
             100_000,
         ),
+        "cltvt_v5" => (
+            BuildConfig::Standard { sapling_anchor: None, orchard_anchor: Some(empty_o), ironwood_anchor: None, orchard_padding: BundlePadding::DEFAULT, ironwood_padding: BundlePadding::DEFAULT },
+            1_000_000,
+            100_000,
+        ),
+        "cltvh_v6" => (
+            BuildConfig::Standard { sapling_anchor: None, orchard_anchor: None, ironwood_anchor: Some(empty_o), ironwood_padding: BundlePadding::DEFAULT, orchard_padding: BundlePadding::DEFAULT },
+            1_000_000,
+            100_000,
+        ),
+        "t2t_v5" => (
+            BuildConfig::Standard { sapling_anchor: None, orchard_anchor: None, ironwood_anchor: None, orchard_padding: BundlePadding::DEFAULT, ironwood_padding: BundlePadding::DEFAULT },
+            2_000_000,
+            300_000,
+        ),
         "s2o_v5" => (
             BuildConfig::Standard { sapling_anchor: Some(s_anchor), orchard_anchor: Some(empty_o), ironwood_anchor: None, orchard_padding: BundlePadding::DEFAULT, ironwood_padding: BundlePadding::DEFAULT },
             1_000_000,
@@ -244,7 +277,18 @@ pub fn build_shape(name: &str) -> Result<Shape, String> {
     let fill = |b: &mut B, change: u64| -> Result<(), String> {
         let e = |x: String| x;
         match name {
-            "t2o_v5" => {
+            "t2t_v5" => {
+                b.add_transparent_p2pkh_input(k.t_pk, utxo.clone(), coin.clone()).map_err(|x| e(format!("{x:?}")))?;
+                b.add_transparent_p2pkh_input(k.t_pk, OutPoint::new([8; 32], 0), coin.clone()).map_err(|x| e(format!("{x:?}")))?;
+                b.add_transparent_output(&TransparentAddress::PublicKeyHash([1; 20]), zat(300_000)).map_err(|x| e(format!("{x:?}")))?;
+                b.add_transparent_output(&k.t_addr, zat(change)).map_err(|x| e(format!("{x:?}")))?;
+            }
+            "cltvh_v6" => {
+                b.add_transparent_p2pkh_input(k.t_pk, utxo.clone(), coin.clone()).map_err(|x| e(format!("{x:?}")))?;
+                b.add_ironwood_output::<FE>(Some(o_ovk.clone()), o_recipient, zat(100_000), MemoBytes::empty()).map_err(|x| e(format!("{x:?}")))?;
+                b.add_ironwood_output::<FE>(Some(k.o_fvk.to_ovk(Scope::Internal)), o_change, zat(change), MemoBytes::empty()).map_err(|x| e(format!("{x:?}")))?;
+            }
+            "t2o_v5" | "cltvt_v5" => {
                 b.add_transparent_p2pkh_input(k.t_pk, utxo.clone(), coin.clone()).map_err(|x| e(format!("{x:?}")))?;
                 b.add_orchard_output::<FE>(Some(o_ovk.clone()), o_recipient, zat(100_000), MemoBytes::empty()).map_err(|x| e(format!("{x:?}")))?;
                 b.add_orchard_output::<FE>(Some(k.o_fvk.to_ovk(Scope::Internal)), o_change, zat(change), MemoBytes::empty()).map_err(|x| e(format!("{x:?}")))?;
@@ -724,4 +768,35 @@ pub fn verifier_pass(p: Pczt) -> Result<Pczt, String> {
         .with_ironwood::<(), _>(|_| Ok(()))
         .map_err(d("Verifier::with_ironwood"))?
         .finish())
+}
+
+/// Error of the no-op low-level Signer pass.
+#[derive(Debug)]
+pub struct LowLevelError(pub String);
+impl From<zcash_transparent::pczt::ParseError> for LowLevelError {
+    fn from(e: zcash_transparent::pczt::ParseError) -> Self {
+        LowLevelError(format!("Transparent({e:?})"))
+    }
+}
+impl From<pczt::sapling::ParseError> for LowLevelError {
+    fn from(e: pczt::sapling::ParseError) -> Self {
+        LowLevelError(format!("Sapling({e:?})"))
+    }
+}
+impl From<pczt::roles::low_level_signer::OrchardParseError> for LowLevelError {
+    fn from(e: pczt::roles::low_level_signer::OrchardParseError) -> Self {
+        LowLevelError(format!("Orchard({e:?})"))
+    }
+}
+
+/// The low-level Signer role over every bundle with closures that sign nothing (it parses each
+/// bundle and writes it back).
+pub fn lowlevel_pass(p: Pczt) -> Result<Pczt, String> {
+    pczt::roles::low_level_signer::Signer::new(p)
+        .sign_transparent_with::<LowLevelError, _>(|_, _, _| Ok(()))
+        .and_then(|s| s.sign_sapling_with::<LowLevelError, _>(|_, _, _| Ok(())))
+        .and_then(|s| s.sign_orchard_with::<LowLevelError, _>(|_, _, _| Ok(())))
+        .and_then(|s| s.sign_ironwood_with::<LowLevelError, _>(|_, _, _| Ok(())))
+        .map(|s| s.finish())
+        .map_err(|e| format!("low-level Signer: {}", e.0))
 }
